@@ -59,6 +59,12 @@ def lake_build(targets):
     return rc == 0, errors, text
 
 
+def leanchecker(modules):
+    """Thorough tier: re-check the compiled property modules with the independent checker."""
+    rc, out, err = run(["lake", "env", "leanchecker"] + modules, cwd=LEAN, timeout=3000)
+    return rc == 0, (out + err)[-400:]
+
+
 def strip_comments(text):
     # remove /- ... -/ (non-nested is enough here) and -- comments
     text = re.sub(r"/-.*?-/", "", text, flags=re.S)
@@ -686,6 +692,11 @@ def main():
             tie_broken.append("theorems not found: " + ", ".join(missing))
         if bad:
             tie_broken.append("non-standard axioms: " + json.dumps(bad))
+        if tier == "thorough":
+            okl, ltext = leanchecker(modules)
+            notes.append("leanchecker on " + ", ".join(modules) + (": accepted" if okl else ": REJECTED " + ltext))
+            if not okl:
+                tie_broken.append("leanchecker rejected a compiled property module: " + ltext)
     else:
         tie_broken.append("lake build failed: " + "; ".join(errors[:5]))
     banned = grep_banned()
